@@ -236,7 +236,9 @@ def check_vec(ctx, config, rule):
         db_ = [e for e in ev if (e.callee or '').endswith('::dealloc_buffer')]
         ni = [e for e in ev if (e.callee or '').endswith('RawVec::<\'a, T>::new_in')]
         zero = lambda e: any(f in (('eq', C(0), P2), ('eq', P2, C(0))) for f in e.state.facts)
-        okz = len(db_) == 1 and zero(db_[0]) and len(ni) == 1 and ni[0].args == [AL_] and r.events.index(db_[0]) < r.events.index(ni[0])
+        # the arena handle is read before or after the release (nothing in between writes the field: no store to .a in this function)
+        same_a = len(ni) == 1 and len(ni[0].args) == 1 and ni[0].args[0][:2] == AL_[:2] and not [e for e in own(r, 'store') if e.lv == fld(SELF, R_ + '.a')]
+        okz = len(db_) == 1 and zero(db_[0]) and same_a and r.events.index(db_[0]) < r.events.index(ni[0])
         if not okz and len(db_) == 1 and zero(db_[0]) and not ni:
             # the same state written field by field: ptr := dangling, cap := 0, the arena handle untouched
             fs = [e for e in own(r, 'store') if zero(e) and r.events.index(e) > r.events.index(db_[0])]
